@@ -211,6 +211,7 @@ class C11(core.Check):
         "Python's codecs for EUC/Big5/GBK are not modelled (only urwid's own byte-range logic)",
         "calc_trim_text: start_col < end_col <= width of the line",
         "the UnicodeWarning of calc_width's fallback is not modelled (its value is)",
+        "on invalid UTF-8 only totality is demanded (in-range width queries never raise); which '?' replacement widths result is correspondence-only",
         "wide (double-byte) mode counts one column per byte: characters whose euc-jp encoding has 3 bytes are outside the oracle",
     ]
 
@@ -427,7 +428,25 @@ class C11(core.Check):
             return None
         return [1] * len(parts)
 
+    def oracle_never_raises(self, case, res):
+        """UTF-8 bytes, valid or not: a width query with in-range offsets returns a value."""
+        if case["mode"] == "str" or MODES[case["enc"]] != 1:
+            return []
+        text, B, mode = text_of(case)
+        L = len(text)
+        names = {1: "calc_width", 2: "calc_text_pos", 5: "is_wide_char", 7: "calc_trim_text", 8: "decode_one"}
+        for q, r in zip(queries(case, text, B, mode), res["r"]):
+            f, a, b, c, d = q
+            if not r[0]:
+                continue
+            if (f in (1, 2, 7) and 0 <= a <= b <= L) or (f in (5, 8) and 0 <= a < L):
+                return [f"{names[f]}{tuple(q[1:])} on the bytes {list(text)} raised error {r[0]}"]
+        return []
+
     def oracle_text(self, case, res):
+        nr = self.oracle_never_raises(case, res)
+        if nr:
+            return nr
         W = self.char_widths(case)
         if W is None:
             return []
@@ -900,7 +919,8 @@ C11.level_text = (
     "NOT proved (stated as Definition trim_text_attr_cs_lengths_full in Properties/C11.v; decided by the exact "
     "model-vs-implementation correspondence and the oracle only): trim_text_attr_cs lengths for arbitrary bytes in every mode "
     "(proved for the UTF-8 encoding of a text and whenever calc_trim_text returns an in-range slice); nothing is proved about "
-    "invalid UTF-8 input or about Python's own CJK codecs (only urwid's byte-range logic is modelled)."
+    "Python's own CJK codecs (only urwid's byte-range logic is modelled); on invalid UTF-8 only totality is proved "
+    "(decode_one yields a chr()-acceptable value for ANY bytes, so calc_width / calc_text_pos / is_wide_char never raise on in-range offsets)."
 )
 C11.level_note = (
     "Trusted: Coq kernel, py2v (+ the subclasses in mods/str_util.py), the wcwidth dump, extraction + OCaml driver, the hand-written "
